@@ -38,4 +38,18 @@ PROPS = {
         rule="state-aware namespace histories biased to failing calls; every failing call's error (type, path fields, sentinel class) compared with os; distinct = distinct term",
         level_text="TODO", level_note="TODO", assumptions=[],
     ),
+    "C04": dict(
+        imports="Base.Path KV.Types KV.FS KV.Handle KV.Run KV.Corr", check="C05_check", ctype="kv_case",
+        show="run kv_init (fst c)", n=dict(quick=120, thorough=3000), chunk=150,
+        rule="~60 fixed name shapes around the ValidPath boundary + n fuzzed names over {a,d,f,.,/,\\,:,multi-byte,0xff} x every entry point x layers "
+             "{mem, Sub(mem), mount, os.FS, Sub(os.FS), cache, tar}; non-trivial = an FS-operation case (ValidPath-only cases are flagged trivial)",
+        level_text="TODO", level_note="TODO", assumptions=[],
+    ),
+    "C03": dict(
+        imports="Base.Path KV.Types KV.FS KV.Handle KV.Run KV.Corr", check="C01_check", ctype="kv_case",
+        show="run kv_init (fst c)", n=dict(quick=600, thorough=12000), chunk=100,
+        rule="namespace histories including removal/renaming of the root, renames into the own subtree, creation below files; on mem, keyvalue over a plain Store, "
+             "mount.FS over three mem.FS and a Sub view; invariant evaluated after every step over all 39 candidate paths (depth<=3 over a,b,ab) of every view; distinct = distinct term",
+        level_text="TODO", level_note="TODO", assumptions=[],
+    ),
 }
